@@ -1622,6 +1622,9 @@ def _factory(real, value):
     return f
 
 
+REAL_FACTORIES = (torch.zeros, torch.ones)
+
+
 class active:
     """Context manager: torch.zeros / torch.ones accept symbolic sizes while a symbolic-shape run is active."""
 
@@ -1731,7 +1734,17 @@ def _conc(d, sizes):
     return d if isinstance(d, int) else sizes[d.name]
 
 
+INPUT_FIX = [None]     # per case: callable(tensors, sizes, rnd) -> tensors, imposing the contract's precondition on drawn inputs
+
+
 def draw_inputs(sizes, rnd, scale=1.0):
+    t = _draw_inputs(sizes, rnd, scale)
+    if INPUT_FIX[0] is not None:
+        t = INPUT_FIX[0](t, sizes, rnd)
+    return t
+
+
+def _draw_inputs(sizes, rnd, scale=1.0):
     tensors = {}
     for name, (shape, domain) in INPUTS.items():
         shp = tuple(_conc(d, sizes) for d in shape)
